@@ -2,9 +2,9 @@ package p_isaaca
 
 import (
 	"fmt"
-	"runtime/debug"
 	"strings"
 	"sync"
+	"sync/atomic"
 	"testing"
 	"time"
 
@@ -355,7 +355,11 @@ func c06Seq(ps []c06Pos) string {
 
 // ---- holder 1: the ballotbox position (SetLastPoint / SetLastPointFromVoteproof / the ballot gate of VoteSignFact)
 
+var c06Boxes atomic.Int64
+
 func c06NewBox() *isaacstates.Ballotbox {
+	c06Boxes.Add(1)
+
 	return isaacstates.NewBallotbox(
 		c06objs.node.Address(),
 		func() base.Threshold { return base.Threshold(67) },
@@ -460,10 +464,10 @@ func (c *c06Counters) flush(r *ev.Rec, part string) {
 	}
 }
 
-// c06BoxDFS enumerates every accepted sequence of updates up to maxDepth through a real Ballotbox. Rejected updates
-// leave the box unchanged (that is checked), so one box serves all candidates until one is accepted; then the box is
-// rebuilt by replaying the accepted prefix.
-func c06BoxDFS(t ev.TB, r *ev.Rec, ps, ballots []c06Pos, prefix []c06Pos, maxDepth int, fromVoteproof bool, cnt *c06Counters) {
+// c06BoxDFS enumerates every accepted sequence of updates up to maxDepth through a real Ballotbox. box is positioned
+// after prefix. Rejected updates leave the box unchanged (that is checked), so one box serves all candidates until one
+// is accepted; the moved box is handed to the next level and a fresh one is built by replaying the accepted prefix.
+func c06BoxDFS(t ev.TB, r *ev.Rec, box *isaacstates.Ballotbox, ps, ballots []c06Pos, prefix []c06Pos, maxDepth int, fromVoteproof bool, cnt *c06Counters) {
 	build := func() *isaacstates.Ballotbox {
 		box := c06NewBox()
 
@@ -476,14 +480,17 @@ func c06BoxDFS(t ev.TB, r *ev.Rec, ps, ballots []c06Pos, prefix []c06Pos, maxDep
 		return box
 	}
 
-	box := build()
 	hist := c06Seq(prefix)
 
 	for _, b := range ballots {
 		cnt.add(c06BoxBallot(t, r, box, b, hist))
 	}
 
-	for _, cand := range ps {
+	for i, cand := range ps {
+		if box == nil {
+			box = build()
+		}
+
 		moved, evs := c06BoxSet(t, r, box, cand, fromVoteproof, hist)
 		cnt.add(evs)
 
@@ -496,10 +503,11 @@ func c06BoxDFS(t ev.TB, r *ev.Rec, ps, ballots []c06Pos, prefix []c06Pos, maxDep
 		}
 
 		if len(prefix)+1 < maxDepth {
-			c06BoxDFS(t, r, ps, ballots, append(prefix[:len(prefix):len(prefix)], cand), maxDepth, fromVoteproof, cnt)
+			c06BoxDFS(t, r, box, ps, ballots, append(prefix[:len(prefix):len(prefix)], cand), maxDepth, fromVoteproof, cnt)
 		}
 
-		box = build()
+		box = nil
+		_ = i
 	}
 }
 
@@ -557,6 +565,13 @@ func (x *c06Lvps) step(t ev.TB, r *ev.Rec, cand c06Pos, hist func() string) (evs
 		}
 
 		r.Violation(t, sig, "LastVoteproofsHandler.Set(%v)=%v (IsNew=%v) after [%s]: Last().Cap() moved from %v to %v (%s)", cand, ret, isnew, hist(), prev, after, why)
+
+		// (known finding: keep exploring; this step is not judged further)
+		clear(x.run)
+		x.run[after] = struct{}{}
+		x.taken[after] = struct{}{}
+
+		return evs
 	}
 
 	if !ret {
@@ -707,7 +722,7 @@ func TestC06(t *testing.T) {
 	defer r.Finish()
 	r.Rule("positions (height,round,stage,majority,suffrage-confirm) as voteproofs create them (sc => INIT and majority). " +
 		"A exhaustive: every ordered pair (last incl. none, candidate) over 3 heights x 3 rounds through LastPoint.Before, IsNewBallot, IsNewVoteproofbyPoint, IsNewVoteproof(real voteproof); " +
-		"B exhaustive: every accepted update sequence up to length 3 (quick) / 4 (thorough) through a real Ballotbox (SetLastPoint and SetLastPointFromVoteproof) plus every ballot offered to VoteSignFact in every reached state; " +
+		"B exhaustive: every accepted update sequence up to length 2 (quick) / 3 (thorough), and 3 / 4 over 2 heights x 2 rounds, through a real Ballotbox (SetLastPoint and SetLastPointFromVoteproof) plus every ballot offered to VoteSignFact in every reached state; " +
 		"C exhaustive: every sequence of 3 (quick) / 4 (thorough; 5 over 2 heights x 2 rounds) Set calls on a real LastVoteproofsHandler, position read from Last().Cap(); " +
 		"D rapid: sequences of 3..30 updates over 5 heights x 4 rounds fed to both holders, candidates drawn relative to the current position. " +
 		"Every move of a judged position is compared with the relation written from the statement. " +
@@ -728,6 +743,31 @@ func TestC06(t *testing.T) {
 	rounds := []uint64{0, 1, 2}
 	ps := c06Positions(heights, rounds)
 	ballots := c06Ballots(heights, rounds)
+
+	// ---- R. shrunk past failures, replayed first (plain sequences, no library)
+	t.Run("R-regress", func(t *testing.T) {
+		if !r.Mine(0) {
+			return
+		}
+
+		var cnt c06Counters
+
+		I := func(h int64, rd uint64, maj, sc bool) c06Pos {
+			return c06Pos{H: h, R: rd, St: base.StageINIT, Maj: maj, SC: sc}
+		}
+		A := func(h int64, rd uint64, maj bool) c06Pos { return c06Pos{H: h, R: rd, St: base.StageACCEPT, Maj: maj} }
+
+		for _, seq := range [][]c06Pos{
+			{A(1, 0, false), I(1, 1, false, false), I(1, 0, true, true)},                                      // late suffrage-confirm voteproof of round 0: Cap() fell back to ACCEPT(1,0)
+			{A(1, 0, false), A(1, 1, false), I(1, 2, false, false), I(1, 0, true, true)},                      // ... to ACCEPT(1,1)
+			{I(1, 0, true, false), A(1, 0, false), I(1, 0, true, true), A(1, 0, true)},                        // sc voteproof at the point of a drawn ACCEPT
+			{I(2, 0, true, false), A(1, 0, true), A(2, 0, false), I(2, 1, false, false), I(2, 0, true, true)}, // with a filled previous-height ACCEPT
+		} {
+			cnt.add(c06LvpsSeq(t, r, seq))
+		}
+
+		cnt.flush(r, "R")
+	})
 
 	// ---- A. the step relation, every ordered pair
 	t.Run("A-step-relation", func(t *testing.T) {
@@ -809,37 +849,43 @@ func TestC06(t *testing.T) {
 	t.Run("B-ballotbox", func(t *testing.T) {
 		var cnt c06Counters
 
-		// every Ballotbox owns a 1 MiB voteproof channel: let garbage pile up to the limit instead of collecting every few boxes
-		defer debug.SetGCPercent(debug.SetGCPercent(-1))
-		defer debug.SetMemoryLimit(debug.SetMemoryLimit(1 << 30))
+		small := c06Positions([]int64{1, 2}, []uint64{0, 1})
+		smallBallots := c06Ballots([]int64{1, 2}, []uint64{0, 1})
 
-		depth := r.N(3, 4)
-
-		for _, fromVoteproof := range []bool{false, true} {
-			// depth 0 (empty box) belongs to shard 0; then shard by the first accepted update
-			if r.Mine(0) {
-				box := c06NewBox()
-				for _, b := range ballots {
-					cnt.add(c06BoxBallot(t, r, box, b, ""))
-				}
-			}
-
-			for i, first := range ps {
-				if !r.Mine(i) {
-					continue
-				}
-
-				box := c06NewBox()
-				if moved, _ := c06BoxSet(t, r, box, first, fromVoteproof, ""); !moved {
-					r.Violation(t, "ballotbox-first-update-refused", "an empty Ballotbox refused %v", first) // not reachable for a sane holder; keeps B honest
+		for _, dom := range []struct {
+			ps, ballots []c06Pos
+			depth       int
+		}{
+			{ps, ballots, r.N(2, 3)},         // 45 positions
+			{small, smallBallots, r.N(3, 4)}, // 20 positions, one level deeper
+		} {
+			for _, fromVoteproof := range []bool{false, true} {
+				// the empty box belongs to shard 0; then shard by the first accepted update
+				if r.Mine(0) {
+					box := c06NewBox()
+					for _, b := range dom.ballots {
+						cnt.add(c06BoxBallot(t, r, box, b, ""))
+					}
 				}
 
-				cnt.add(0)
-				c06BoxDFS(t, r, ps, ballots, []c06Pos{first}, depth, fromVoteproof, &cnt)
+				for i, first := range dom.ps {
+					if !r.Mine(i) {
+						continue
+					}
+
+					box := c06NewBox()
+					if moved, _ := c06BoxSet(t, r, box, first, fromVoteproof, ""); !moved {
+						r.Violation(t, "ballotbox-first-update-refused", "an empty Ballotbox refused %v", first) // not reachable for a sane holder; keeps B honest
+					}
+
+					cnt.add(0)
+					c06BoxDFS(t, r, box, dom.ps, dom.ballots, []c06Pos{first}, dom.depth, fromVoteproof, &cnt)
+				}
 			}
 		}
 
 		cnt.flush(r, "B")
+		r.Extra("ballotboxes_built", c06Boxes.Load())
 
 		for _, s := range cnt.sample {
 			r.Sample(s)
@@ -869,8 +915,6 @@ func TestC06(t *testing.T) {
 	}
 
 	// ---- D. rapid sequences through both holders
-	defer debug.SetGCPercent(debug.SetGCPercent(-1))
-	defer debug.SetMemoryLimit(debug.SetMemoryLimit(1 << 30))
 	r.Checks(1500, 200000)
 	r.ShrinkTime(20 * time.Second)
 	rapid.Check(t, func(rt *rapid.T) {
